@@ -456,6 +456,64 @@ impl Admin {
         }
     }
 
+    /// A liquidator takes an unhealthy account into receivership and, inside the bracket, tries to
+    /// collect the account's accrued rewards into its own token account (rewards may be paid only to
+    /// the destination chosen by the account's authority).
+    pub async fn emissions_in_receivership(&mut self, w: &mut World, m: &mut Mon, r: &mut R, lev: &crate::scen::Lev, receiver_user: usize) {
+        use crate::scen::*;
+        for _ in 0..4 {
+            if w.bank(lev.ca).emissions_mint == Pubkey::default() || w.bank(lev.ca).emissions_rate == 0 {
+                let _ = self.emissions(w, m, r, lev.ca).await;
+            }
+        }
+        let bank = w.bank(lev.ca);
+        let em = match w.mints.iter().position(|mm| mm.key == bank.emissions_mint) {
+            Some(x) if bank.emissions_mint != Pubkey::default() => x,
+            _ => {
+                m.r.count("admin.emissions_in_receivership_not_possible");
+                return;
+            }
+        };
+        w.chain.advance(pick(r, &[3600i64, 86_400, 30 * 86_400]));
+        w.refresh_oracles();
+        let le = lev.acct;
+        let rk = w.user_kp(receiver_user);
+        let tas = w.users[receiver_user].tas.clone();
+        let with_init = !w.shadow.contains_key(&ix::liq_record_key(&w.accts[le].key));
+        let saved = save_price(w, lev.ca);
+        let mut crashes = 0;
+        let mut startable = false;
+        for _ in 0..8 {
+            let ixs = receivership_ixs(w, le, &rk, None, None, with_init, &tas);
+            if w.probe(m, &ixs, &[&rk]).await.ok() {
+                startable = true;
+                break;
+            }
+            scale_price_any(w, lev.ca, 0.5).await;
+            crashes += 1;
+        }
+        m.r.count(if startable { "admin.emissions_in_receivership_rounds" } else { "admin.emissions_in_receivership_account_never_liquidatable" });
+        if startable {
+            let gk = w.groups[w.accts[le].group].key;
+            let dst = tas[em];
+            let mut ixs = receivership_ixs(w, le, &rk, None, None, with_init, &tas);
+            let end = ixs.len() - 1;
+            ixs.insert(end, ix::withdraw_emissions(gk, w.accts[le].key, rk.pubkey(), w.banks[lev.ca].key, bank.emissions_mint, dst, w.mints[em].program()));
+            let o = w.exec(m, &ixs, &[&rk]).await;
+            m.r.count(if o.ok() { "admin.emissions_in_receivership_accepted" } else { "admin.emissions_in_receivership_refused" });
+            // the same, settling first (permissionless) so that the rewards are on the books
+            let mut ixs = receivership_ixs(w, le, &rk, None, None, !w.shadow.contains_key(&ix::liq_record_key(&w.accts[le].key)), &tas);
+            let end = ixs.len() - 1;
+            ixs.insert(end, ix::settle_emissions(w.accts[le].key, w.banks[lev.ca].key));
+            let o = w.exec(m, &ixs, &[&rk]).await;
+            m.r.count(if o.ok() { "admin.settle_in_receivership_accepted" } else { "admin.settle_in_receivership_refused" });
+        }
+        match saved {
+            SavedPx::None => scale_price_any(w, lev.ca, 2f64.powi(crashes)).await,
+            sp => restore_price(w, lev.ca, sp),
+        }
+    }
+
     /// user side of emissions: settle / withdraw to own account / register destination
     pub async fn emissions_user(&mut self, w: &mut World, m: &mut Mon, r: &mut R) {
         let a = r.gen_range(0..w.accts.len());
@@ -505,6 +563,51 @@ impl Admin {
                 }
             }
         }
+    }
+}
+
+/// The global fee admin moves the program's fee wallet and nobody tells the groups (their cached
+/// copy of the fee state still names the old wallet): fee collection must pay the program's share
+/// to the token account of the wallet the fee state names now, and to no other. The wallet is put
+/// back (and propagated) afterwards.
+pub async fn fee_wallet_rotation(w: &mut World, m: &mut Mon, r: &mut R, g: usize) {
+    let fa = clone_kp(&w.fee_admin);
+    let fs = match w.shadow.get(&ix::fee_state_key()).and_then(|a| fee_state_of(&a.data)) {
+        Some(f) => f,
+        None => return,
+    };
+    let old_wallet = fs.global_fee_wallet;
+    let new_wallet = w.next_kp().pubkey();
+    let banks: Vec<usize> = (0..w.banks.len()).filter(|b| w.banks[*b].group == g && w.banks[*b].venue.is_none()).collect();
+    if banks.is_empty() {
+        return;
+    }
+    // prefer banks that owe the program at least one whole token
+    let owing: Vec<usize> = banks.iter().cloned().filter(|b| BankQ::of(&w.bank(*b)).f_prog >= one()).collect();
+    let i = ix::edit_fee_state(fa.pubkey(), fs.global_fee_admin, new_wallet, fs.bank_init_flat_sol_fee, fs.liquidation_flat_sol_fee, fs.program_fee_fixed, fs.program_fee_rate, fs.liquidation_max_fee);
+    if !w.exec(m, &[i], &[&fa]).await.ok() {
+        m.r.count("admin.fee_wallet_rotation_refused");
+        return;
+    }
+    m.r.count("admin.fee_wallet_rotations");
+    for _ in 0..3 {
+        let b = if !owing.is_empty() && r.gen_bool(0.8) { pick(r, &owing) } else { pick(r, &banks) };
+        let mint = w.banks[b].mint;
+        w.create_ata(new_wallet, mint).await;
+        let (mk, prog) = (w.mints[mint].key, w.mints[mint].program());
+        let gk = w.groups[g].key;
+        // first towards the wallet the groups still remember, then towards the one in force
+        for wallet in [old_wallet, new_wallet] {
+            let i = ix::collect_fees(gk, w.banks[b].key, ix::ata(&wallet, &mk, &prog), prog, w.mint_prefix(b));
+            let o = w.exec(m, &[i], &[]).await;
+            m.r.count(&format!("admin.collect_after_wallet_rotation/{}/{}", if wallet == old_wallet { "old-wallet" } else { "new-wallet" }, if o.ok() { "accepted" } else { "refused" }));
+        }
+    }
+    let i = ix::edit_fee_state(fa.pubkey(), fs.global_fee_admin, old_wallet, fs.bank_init_flat_sol_fee, fs.liquidation_flat_sol_fee, fs.program_fee_fixed, fs.program_fee_rate, fs.liquidation_max_fee);
+    let back = w.exec(m, &[i], &[&fa]).await;
+    assert!(back.ok(), "fee wallet could not be restored: {}", back.err_string());
+    for gi in 0..w.groups.len() {
+        let _ = w.exec(m, &[ix::propagate_fee(w.groups[gi].key)], &[]).await;
     }
 }
 
